@@ -765,7 +765,8 @@ LEVEL_TEXT = ("Fault enumeration under a file-system monitor: for documents x fo
               "the k-th write of the underlying stream for every k, the final move, a failpoint at every statement boundary of the path branch "
               "(sys.monitoring), and at OS level an error or SIGKILL at every write / rename / openat system call (strace -e inject), with the "
               "destination on the temp directory's file system and on another one. After each failure the named file must hold its previous bytes "
-              "(or still be absent) or, if the call completed, the complete serialisation.")
+              "(or still be absent) or, if the call completed, the complete serialisation."
+              " Serializer options travel with the call; in-process bytes are compared strictly; destinations include directories, links to directories, path-like objects and a directory called ~; previous content may be the same text with other line ends; documents range up to several hundred KiB; KeyboardInterrupt is injected as well.")
 LEVEL_NOTE = ("Trusted: the before/after listings and hashes, strace's fault injection. Complete with respect to the enumerated fault points of the "
               "observed executions, not to power loss (no fsync is claimed).")
 DESIGN_REF = "DESIGN.md section 5 (FS) and section 6, C17"
